@@ -192,6 +192,17 @@ func c04Alphabet(c *Config, thorough bool) (full, mid []WRec) {
 		full = append(full, WRec{Code: a.Undef[0], Decl: -1, Payload: smuggle(0, n, inner), Tag: "undef"},
 			WRec{Code: a.Undef[0], Flags: 0xC0, Vendor: 4242, Decl: -1, Payload: smuggle(0, n, inner), Tag: "undefV"})
 	}
+	// declared lengths around 2^16 (the length field has 24 bits)
+	for _, n := range []int{65527, 65528, 65536, 70001} {
+		big := make([]byte, n)
+		for i := range big {
+			big[i] = byte(i*11 + 3)
+		}
+		full = append(full, WRec{Code: a.Undef[0], Decl: -1, Payload: big, Tag: "undef-big"})
+		if d, ok := a.Plain[atoms.KOctet]; ok {
+			full = append(full, WRec{Code: d.Code, Flags: mflag(d.Must), Decl: -1, Payload: big, Tag: "OctetString-big"})
+		}
+	}
 	mid = append(mid, WRec{Code: a.Undef[0], Decl: -1, Payload: []byte{1, 2, 3}, Tag: "undef"},
 		WRec{Code: a.Undef[0], Flags: 0x80, Vendor: 4242, Decl: -1, Payload: nil, Tag: "undefV"})
 	return
@@ -216,7 +227,7 @@ func c04Enum(ctx *ev.Ctx, fn func(*Config, C04Case)) string {
 	for _, name := range []string{"generated/app0", "default/app4", "base/app0"} {
 		c := ConfigByName(name)
 		full, mid := c04Alphabet(c, thorough)
-		tail := full[len(full)-3] // a plain undefined AVP used as the "following AVP"
+		tail := WRec{Code: c.A.Undef[0], Decl: -1, Payload: []byte{7, 7, 7, 7, 7, 7, 7}, Tag: "undef"} // the "following AVP"
 		// singles and pairs at top level
 		for _, a := range full {
 			emit(c, a)
@@ -281,7 +292,7 @@ func c04Enum(ctx *ev.Ctx, fn func(*Config, C04Case)) string {
 			}
 		}
 	}
-	return "bodies assembled from raw (code, flags, vendor, declared length, payload) records: every fixed-width type (Unsigned32/64, Integer32/64, Float32/64, Enumerated, Time, IPv4, IPv6) with payloads of every length 0..20 whose excess bytes are well-formed AVP images (the smuggling shape), Address of families {0,1,2,3,8,65535} x 0..20 address bytes, variable-width types, undefined codes with and without vendor id; singles, before/after another AVP, all ordered pairs of the mid alphabet (thorough: full alphabet, and triples of mid), the same inside grouped AVPs at depth 1..2 (thorough 3), empty groups; declared lengths 0..11, natural-1, natural+1..+13, 4096 and 2^24-1 at every position; under the generated, default and base dictionaries. Distinct by body bytes."
+	return "bodies assembled from raw (code, flags, vendor, declared length, payload) records: every fixed-width type (Unsigned32/64, Integer32/64, Float32/64, Enumerated, Time, IPv4, IPv6) with payloads of every length 0..20 whose excess bytes are well-formed AVP images (the smuggling shape), Address of families {0,1,2,3,8,65535} x 0..20 address bytes, variable-width types, undefined codes with and without vendor id, payloads of 65527 / 65528 / 65536 / 70001 bytes (declared lengths around 2^16); singles, before/after another AVP, all ordered pairs of the mid alphabet (thorough: full alphabet, and triples of mid), the same inside grouped AVPs at depth 1..2 (thorough 3), empty groups; declared lengths 0..11, natural-1, natural+1..+13, 4096 and 2^24-1 at every position; under the generated, default and base dictionaries. Distinct by body bytes."
 }
 
 // c04Eval compares the decoder with the reference framer for one body.
